@@ -21,7 +21,7 @@ RULE = ("Triangulated disks built by the harness: Delaunay triangulations of 4-4
         "Every case also carries a SECOND configuration (target, weights, storage, verbosity drawn independently) that is run on one "
         "of the two mesh objects ALREADY used by the first run, optionally after attributes.cotangent / attributes.corner_angles / "
         "a cotangent laplacian were evaluated on it (persistent 'cotan' / 'angles' corner attributes); all oracles are applied to "
-        "the second result as well. Input coordinates are uniformly scaled by 1e-4 / 1 / 1e4; custom polygons may be integer-typed "
+        "the second result as well. Input coordinates are uniformly scaled by 1e-8 / 1e-6 / 1e-4 / 1 / 1e4 / 1e6 (the statement is invariant to the unit of the input); custom polygons may be integer-typed "
         "(numpy int64 array, radius ~1e6); the custom array argument is snapshotted and must be unchanged after run(). "
         "Sub-check large_disks: jittered 34..44 x 34..44 grids with random diagonals and Delaunay triangulations of 1200-1900 "
         "jittered-grid points (> 1000 interior vertices, optional height field), same oracles and tolerances. "
@@ -121,7 +121,7 @@ def finish_case(draw, s):
             case["tags"].append("forced-uniform")
         case["cotan"] = case["second_cotan"] = False
         case["second_pre"] = "none"          # cotangents / angles are not defined on (near-)degenerate triangles
-    sc = [1.0, 1e-4, 1.0, 1e4][(k1 // 400) % 4]
+    sc = [1.0, 1e-4, 1.0, 1e4, 1e-6, 1e6, 1e-8, 1.0][(k1 // 400) % 8]
     if sc != 1.0:
         case["V"] = (np.array(s["V"], dtype=float) * sc).tolist()
     case["in_scale"] = sc
@@ -449,6 +449,7 @@ def fn_embed(case, ctx):
     # ------------------------------------------------------------------ first configuration: both storages on fresh meshes
     res = {}
     meshes = {}
+    workers = {}
     for corners in (False, True):
         tag = "per-corner" if corners else "per-vertex"
         m = surface_from(V, F)
@@ -457,6 +458,7 @@ def fn_embed(case, ctx):
             return
         res[corners] = UV
         meshes[corners] = m
+        workers[corners] = cfg["_worker"]
     UV = res[False]
     scale = max(1e-300, float(np.max(np.abs(UV[loop]))))
     dmax = float(np.max(np.abs(res[False] - res[True])))
@@ -490,7 +492,18 @@ def fn_embed(case, ctx):
     UV2 = run_once(case, cfg2, m, c2, geo, ctx, tag, other_had=other.has_attribute("uv_coords"))
     if UV2 is None:
         return
-    check_embedding(cfg2, UV2, geo, ctx, tag)
+    if not check_embedding(cfg2, UV2, geo, ctx, tag):
+        return
+    # results of the earlier, independent workers are not disturbed by the later run (shared buffers / class-level state)
+    for corners in (False, True):
+        if corners == on_corner_mesh and c2 == corners:
+            continue                      # same mesh, same container, same attribute name: legitimately overwritten
+        again = read_uvs(workers[corners], meshes[corners], ref, corners, ctx, "re-read of the first result", other_had=True)
+        if again is None:
+            return
+        ctx.check(bool(np.all(again == res[corners])), "history:first-result-changed",
+                  f"the {'per-corner' if corners else 'per-vertex'} result of the first run changed after a later, independent run "
+                  f"({tag}): max difference {float(np.max(np.abs(again - res[corners]))):.3e}")
 
 
 def run_once(case, cfg, m, corners, geo, ctx, tag, other_had):
@@ -511,6 +524,7 @@ def run_once(case, cfg, m, corners, geo, ctx, tag, other_had):
         return None
     check_flat(t, m, ref, UV, V, ctx, tag)
     cfg["_pos"] = pos
+    cfg["_worker"] = t
     return UV
 
 
